@@ -7,6 +7,7 @@ import (
 	"path/filepath"
 	"sort"
 	"strings"
+	"sync/atomic"
 	"testing"
 
 	"pgregory.net/rapid"
@@ -346,8 +347,17 @@ func (p *dprop) check(c *DagCase, st *evid.Stats) error {
 		b, _ := json.Marshal(d)
 		return fmt.Errorf("%s\ncase+history: %s", v.Msg, b)
 	}
+	if r.Stalled && p.Tag != "C16" && atomic.AddInt32(&stallsSeen, 1) >= 2 {
+		// Run does not return on this tree (C16's checks report that). Every further case may cost the stall
+		// bounds again and this property cannot be judged without Run's result: stop, inconclusive.
+		_ = st.Write()
+		fmt.Printf("INCONCLUSIVE: %s/%s: two confirmed stalls without a %s violation; Run does not return on this tree (reported by C16), the property cannot be judged\n", p.ID, p.Sub, p.ID)
+		os.Exit(2)
+	}
 	return nil
 }
+
+var stallsSeen int32
 
 func saveFail(id, sub string, c *DagCase, msg string) string {
 	return evid.SaveFail(id, sub, c, msg)
